@@ -983,9 +983,18 @@ impl Driver {
             }
             return;
         }
-        if self.close_pending && (self.r.below(100) < 80 || self.model.status == St::D) {
-            self.closed();
-            return;
+        if self.close_pending {
+            // the rest of what the peer had already sent may arrive after the library has asked for the close and before
+            // the application reports the transport closed
+            if self.model.transport_open && self.model.status == St::D && self.r.below(100) < 25 {
+                let p = if self.r.bool() { self.peer_publish() } else { self.peer_ack_frame().unwrap_or(Pkt::Pingreq { ver }) };
+                self.feed_pkt(&p);
+                return;
+            }
+            if self.r.below(100) < 80 || self.model.status == St::D {
+                self.closed();
+                return;
+            }
         }
         // the application breaks its contract
         if self.misuse_pm > 0 && self.r.below(1000) < self.misuse_pm {
